@@ -14,13 +14,22 @@ theorem nc_challenge_token_read (buf rest : Bytes) (h : rest <:+ buf) :
     Src.renetcode.packet.ChallengeToken.read (rcur buf rest) = rdRes buf reprCT (readCT rest) :=
   challenge_read_eq h
 
-/-- `ChallengeToken::write` at any cursor position: `WriteZero` exactly when the model's `writeAll`s fail -/
+/-- `ChallengeToken::write` at any cursor position: both `write_all`s as in the model; on `WriteZero` the error
+    carries the cursor filled to the end of the buffer (`wfull`) -/
 theorem nc_challenge_token_write (w : Wr) (tail : List Nat) (h : WrOk w tail) (t : Netcode.ChallengeToken) :
     Src.renetcode.packet.ChallengeToken.write (reprCT t) (wcur w tail) =
-      match writeCT t w with
-      | some w' => .ok (wcur w' (tail.drop (8 + t.userData.length)), ())
-      | none => .err .opaque :=
+      match w.writeAll (leBytes t.clientId 8) with
+      | none => .err (.opaque, wfull w tail (leBytes t.clientId 8))
+      | some w1 =>
+        match w1.writeAll t.userData with
+        | none => .err (.opaque, wfull w1 (tail.drop 8) t.userData)
+        | some w' => .ok (wcur w' (tail.drop (8 + t.userData.length)), ()) :=
   challenge_write_eq h t
+
+/-- … it fails exactly when the model writer `writeCT` fails -/
+theorem nc_challenge_token_write_fails_iff (w : Wr) (tail : List Nat) (h : WrOk w tail) (t : Netcode.ChallengeToken) :
+    (∃ e, Src.renetcode.packet.ChallengeToken.write (reprCT t) (wcur w tail) = .err e) ↔ writeCT t w = none :=
+  challenge_write_ok h t
 
 /-- `ChallengeToken::new` -/
 theorem nc_challenge_token_new {ε : Type} (clientId : Nat) (userData : Bytes) :
@@ -29,9 +38,11 @@ theorem nc_challenge_token_new {ε : Type} (clientId : Nat) (userData : Bytes) :
 
 example : Src.renetcode.packet.ChallengeToken.write ⟨0x0102, [7, 8]⟩ (WriteCursor.new (List.replicate 12 0)) =
     .ok (⟨[2, 1, 0, 0, 0, 0, 0, 0, 7, 8, 0, 0], 10⟩, ()) := by decide +kernel
-example : Src.renetcode.packet.ChallengeToken.write ⟨0x0102, [7, 8]⟩ (WriteCursor.new (List.replicate 9 0)) = .err .opaque := by
+example : Src.renetcode.packet.ChallengeToken.write ⟨0x0102, [7, 8]⟩ (WriteCursor.new (List.replicate 9 0)) =
+    .err (.opaque, ⟨[2, 1, 0, 0, 0, 0, 0, 0, 7], 9⟩) := by
   decide +kernel
-example : Src.renetcode.packet.ChallengeToken.read (ReadCursor.new (List.replicate 263 0)) = .err .opaque := by
+example : Src.renetcode.packet.ChallengeToken.read (ReadCursor.new (List.replicate 263 0)) =
+    .err (.opaque, ⟨List.replicate 263 0, 263⟩) := by
   decide +kernel
 example : Src.renetcode.packet.ChallengeToken.read (ReadCursor.new ([5, 0, 0, 0, 0, 0, 0, 0] ++ List.replicate 256 3)) =
     .ok (⟨[5, 0, 0, 0, 0, 0, 0, 0] ++ List.replicate 256 3, 264⟩, ⟨5, List.replicate 256 3⟩) := by decide +kernel
